@@ -553,8 +553,8 @@ func childMain(cfgJSON string) {
 		return count >= 1 && count <= 100000 && size >= 1 && size <= 1400
 	}
 	// fill: bursts of count packets until the write queue of some session STAYS full (at least 3/4 of a
-	// burst's packets of one media refused in three consecutive bursts and again after a pause of
-	// 10 ms), i.e. until that session's writer is blocked in a socket write; at most max bursts.
+	// burst's packets of one media refused in two consecutive bursts and again after a pause of
+	// 8 ms), i.e. until that session's writer is blocked in a socket write; at most max bursts.
 	// Answer: "OK <blocked 0|1> <bursts written>".
 	fill := func(count, size, max int) string {
 		prev := writeErrCounts()
@@ -579,8 +579,8 @@ func childMain(cfgJSON string) {
 			} else {
 				runs = 0
 			}
-			if runs >= 3 {
-				time.Sleep(10 * time.Millisecond)
+			if runs >= 2 {
+				time.Sleep(8 * time.Millisecond)
 				i++
 				if maxDelta(burst(count, size)) >= count*3/4 {
 					return fmt.Sprintf("OK 1 %d", i)
